@@ -1084,6 +1084,32 @@ public:
         return out;
     }
 
+    template <typename Results>
+    static std::vector<ld> rel_errors_of(Results const& results)
+    {
+        using std::fabs;
+        std::vector<ld> out;
+        for (std::size_t k = 1; k <= results.size(); ++k)
+        {
+            auto const r = hep::accumulate<hep::weighted_with_variance>(results.begin(), results.begin() + k);
+            T const val = r.value();
+            T const err = r.error();
+            T const rel = err / fabs(val);
+            out.push_back(rel);
+        }
+        return out;
+    }
+
+    std::vector<ld> combined_rel_errors() const override
+    {
+        switch (integ_)
+        {
+        case PLAIN: return rel_errors_of(pc_->results());
+        case VEGAS: return rel_errors_of(vc_->results());
+        default: return rel_errors_of(mc_->results());
+        }
+    }
+
     UsageInfo usage() const override
     {
         UsageInfo u;
